@@ -19,6 +19,11 @@ val length : 'a1 list -> nat
 
 val app : 'a1 list -> 'a1 list -> 'a1 list
 
+type comparison =
+| Eq
+| Lt
+| Gt
+
 type uint =
 | Nil
 | D0 of uint
@@ -53,7 +58,9 @@ val mul : nat -> nat -> nat
 
 val sub : nat -> nat -> nat
 
-val eqb : bool -> bool -> bool
+val eqb : nat -> nat -> bool
+
+val eqb0 : bool -> bool -> bool
 
 module Nat :
  sig
@@ -65,6 +72,8 @@ module Nat :
 
   val ltb : nat -> nat -> bool
 
+  val max : nat -> nat -> nat
+
   val divmod : nat -> nat -> nat -> nat -> nat * nat
 
   val modulo : nat -> nat -> nat
@@ -74,9 +83,13 @@ val nth_error : 'a1 list -> nat -> 'a1 option
 
 val rev0 : 'a1 list -> 'a1 list
 
+val concat : 'a1 list list -> 'a1 list
+
 val map : ('a1 -> 'a2) -> 'a1 list -> 'a2 list
 
 val fold_left : ('a1 -> 'a2 -> 'a1) -> 'a2 list -> 'a1 -> 'a1
+
+val fold_right : ('a2 -> 'a1 -> 'a1) -> 'a1 -> 'a2 list -> 'a1
 
 val existsb : ('a1 -> bool) -> 'a1 list -> bool
 
@@ -110,6 +123,12 @@ module Pos :
 
   val mul : positive -> positive -> positive
 
+  val compare_cont : comparison -> positive -> positive -> comparison
+
+  val compare : positive -> positive -> comparison
+
+  val eqb : positive -> positive -> bool
+
   val iter_op : ('a1 -> 'a1 -> 'a1) -> positive -> 'a1 -> 'a1
 
   val to_nat : positive -> nat
@@ -131,12 +150,18 @@ module N :
 
   val mul : n -> n -> n
 
+  val compare : n -> n -> comparison
+
   val to_nat : n -> nat
+
+  val of_nat : nat -> n
  end
 
 module Z :
  sig
   val opp : z -> z
+
+  val eqb : z -> z -> bool
 
   val to_nat : z -> nat
 
@@ -154,7 +179,19 @@ module Z :
 type ascii =
 | Ascii of bool * bool * bool * bool * bool * bool * bool * bool
 
-val eqb0 : ascii -> ascii -> bool
+val zero : ascii
+
+val one : ascii
+
+val shift : bool -> ascii -> ascii
+
+val eqb1 : ascii -> ascii -> bool
+
+val ascii_of_pos : positive -> ascii
+
+val ascii_of_N : n -> ascii
+
+val ascii_of_nat : nat -> ascii
 
 val n_of_digits : bool list -> n
 
@@ -162,11 +199,17 @@ val n_of_ascii : ascii -> n
 
 val nat_of_ascii : ascii -> nat
 
+val compare0 : ascii -> ascii -> comparison
+
 type string =
 | EmptyString
 | String of ascii * string
 
-val eqb1 : string -> string -> bool
+val eqb2 : string -> string -> bool
+
+val compare1 : string -> string -> comparison
+
+val leb0 : string -> string -> bool
 
 val append : string -> string -> string
 
@@ -211,6 +254,8 @@ val snat : nat -> sexp
 val atom_of : sexp -> string
 
 val nat_of : sexp -> nat
+
+val z_of : sexp -> z
 
 val bool_of : sexp -> bool
 
@@ -527,5 +572,259 @@ val load : keyset -> string -> (nat * keyinfo, lerr) sum
 val key_of : sexp -> keyinfo
 
 val run4 : sexp -> sexp
+
+type gv =
+| GNull
+| GBool of bool
+| GInt of z
+| GFloat of string * string
+| GStr of string
+| GTime of string
+| GSeq of gv list
+| GMap of (string * gv) list
+| GUMap of (string * gv) list
+
+type json =
+| JNull
+| JBool of bool
+| JNum of string
+| JStr of string
+| JArr of json list
+| JObj of (string * json) list
+
+val sprint : gv -> string option
+
+val ins_sorted : string -> 'a1 -> (string * 'a1) list -> (string * 'a1) list
+
+val sort_keys : (string * 'a1) list -> (string * 'a1) list
+
+val aset : string -> 'a1 -> (string * 'a1) list -> (string * 'a1) list
+
+val aget : string -> (string * 'a1) list -> 'a1 option
+
+val gv_json : gv -> json
+
+val to_map_recursive : gv -> gv
+
+val gv_of_sexp : sexp -> gv
+
+val json_sexp : json -> sexp
+
+type field_row = (((string * (bool * string)) * string) * string) * string
+
+val struct_Pipeline : field_row list
+
+val struct_Signature : field_row list
+
+val struct_CommandStep : field_row list
+
+val struct_CommandStep_UnmarshalOrdered_anon0 : field_row list
+
+val struct_Cache : field_row list
+
+val struct_Matrix : field_row list
+
+val struct_MatrixAdjustment : field_row list
+
+val struct_GroupStep : field_row list
+
+val row_name : field_row -> string
+
+val row_yaml : field_row -> string
+
+val row_aliases : field_row -> string
+
+val cut_comma : string -> string * string
+
+val split_comma : string -> string list
+
+val lower_ascii : ascii -> ascii
+
+val to_lower : string -> string
+
+val is_exported : string -> bool
+
+val primary_key : field_row -> string
+
+val first_alias : string list -> (string * gv) list -> (string * gv) option
+
+type field_class =
+| FSkip
+| FInline
+| FKeyed
+
+val classify : field_row -> field_class
+
+val field_lookup : field_row -> (string * gv) list -> (string * gv) option
+
+type partition = { assigned : ((field_row * string) * gv) list;
+                   inline_field : field_row option; multiple_inline : 
+                   bool; leftover : (string * gv) list }
+
+val assign_fields :
+  field_row list -> (string * gv) list -> (((field_row * string) * gv)
+  list * field_row option) * bool
+
+val partition_keys : field_row list -> (string * gv) list -> partition
+
+val assigned_to : string -> ((field_row * string) * gv) list -> gv option
+
+type 't res =
+| Ok of 't * nat
+| Err
+
+val bind : 'a1 res -> ('a1 -> 'a2 res) -> 'a2 res
+
+val ret : 'a1 -> 'a1 res
+
+val mapM : ('a1 -> 'a2 res) -> 'a1 list -> 'a2 list res
+
+type signature = { sg_alg : string; sg_fields : string list option;
+                   sg_value : string }
+
+type plugin = { pl_source : string; pl_config : gv }
+
+type madj0 = { ma_with : (string * string) list option; ma_skip : gv;
+               ma_rem : (string * gv) list }
+
+type matrix0 = { mx_setup : (string * string list option) list option;
+                 mx_adj : madj0 option list; mx_rem : (string * gv) list }
+
+type cache = { ca_disabled : bool; ca_name : string; ca_paths : string list;
+               ca_size : string; ca_rem : (string * gv) list }
+
+type command_step = { cs_key : string; cs_label : string;
+                      cs_command : string; cs_plugins : plugin list;
+                      cs_env : (string * string) list;
+                      cs_sig : signature option; cs_matrix : matrix0 option;
+                      cs_cache : cache option; cs_rem : (string * gv) list }
+
+type step0 =
+| SCommand of command_step
+| SWait of string * (string * gv) list
+| SInput of string * (string * gv) list
+| STrigger of (string * gv) list
+| SGroup of string * string option * step0 list * (string * gv) list
+| SUnknown of gv
+
+type pipeline = { pp_steps : step0 list;
+                  pp_env : (string * string) list option;
+                  pp_rem : (string * gv) list; pp_nosteps : bool }
+
+val unm_string : gv -> string res
+
+val unm_strings : gv -> string list option res
+
+val strings_or_nil : string list option -> string list
+
+val unm_map_ss : gv -> (string * string) list res
+
+val unm_bool : gv -> bool res
+
+val field : string -> partition -> gv option
+
+val opt_field : string -> partition -> 'a1 -> (gv -> 'a1 res) -> 'a1 res
+
+val unm_sig : gv -> signature option res
+
+val plugins_of_map : (string * gv) list -> plugin list
+
+val unm_plugins : gv -> plugin list res
+
+val with_scalar : gv -> string option
+
+val unm_with : gv -> (string * string) list res
+
+val unm_adj : gv -> madj0 option res
+
+val unm_adjs : gv -> madj0 option list res
+
+val unm_setup : gv -> (string * string list option) list res
+
+val unm_matrix : gv -> matrix0 option res
+
+val unm_cache : gv -> cache option res
+
+val nl : string
+
+val join_nl : string list -> string
+
+val unm_command : (string * gv) list -> command_step res
+
+val warn1 : 'a1 -> 'a1 res
+
+val unm_steps : nat -> gv -> step0 list res
+
+val unm_step : nat -> gv -> step0 res
+
+val unm_env_block : gv -> (string * string) list option res
+
+val parse : nat -> gv -> pipeline res
+
+val gv_depth : gv -> nat
+
+val parse_doc : gv -> pipeline res
+
+val jstrs : string list -> json
+
+val inline_friendly : (string * json) list -> (string * gv) list -> json
+
+val oe : bool -> string -> json -> (string * json) list
+
+val is_empty_any : gv -> bool
+
+val mj_sig : signature -> json
+
+val mj_plugin : plugin -> json
+
+val mj_map_ss : (string * string) list -> json
+
+val mj_with : (string * string) list option -> json
+
+val mj_adj : madj0 option -> json
+
+val mj_strs_opt : string list option -> json
+
+val setup_anon : (string * string list option) list -> string list option
+
+val mj_setup : (string * string list option) list option -> json
+
+val mx_simple : matrix0 -> string list option
+
+val mj_matrix : matrix0 -> json
+
+val mj_cache : cache -> json
+
+val mj_command : command_step -> json
+
+val mj_contents : (string * gv) list -> json
+
+val mj_step : step0 -> json
+
+val mj_env_block : (string * string) list -> json
+
+val mj_pipeline : pipeline -> json
+
+val gv_finite : gv -> bool
+
+val rem_finite : (string * gv) list -> bool
+
+val matrix_ok : matrix0 -> bool
+
+val command_ok : command_step -> bool
+
+val step_ok : step0 -> bool
+
+val pipeline_ok : pipeline -> bool
+
+val marshal_json : pipeline -> json option
+
+val status_sexp : pipeline -> nat -> sexp
+
+val count_step : step0 -> nat
+
+val count_steps : step0 list -> nat
+
+val run5 : sexp -> sexp
 
 val dispatch : string -> sexp -> sexp
